@@ -93,6 +93,11 @@ func Parse(in *bytes.Buffer) (defs []*RouteDef, err error) {
 		}
 		defs = append(defs, def)
 	}
+	// e.g. a line which exceeds the maximum line length: do not
+	// return the commands read so far as if they were the full table
+	if err := scanner.Err(); err != nil {
+		return nil, fmt.Errorf("line %d: %s", i+1, err)
+	}
 	return defs, nil
 }
 
